@@ -71,11 +71,27 @@ func c17One(s []byte) string {
 var c17Hostile = []byte{0, '\n', '\r', '\t', ' ', '"', '\'', '\\', ',', ':', '.', '0', '5', '7', 'x', 'u', 'U', 'a', 0x7f, 0x80, 0xbf, 0xc3, 0xa9, 0xe2, 0xef, 0xbd, 0xff, 0xf0}
 
 func runC17(r *report.Run) {
-	r.SetRule("all byte strings of length <=2, all length-3 strings over a 28-byte hostile alphabet (controls, quotes, backslash, separators, digits, UTF-8 lead/continuation bytes), seeded random strings (length<=40, biased to that alphabet and to backslash-escape look-alikes); non-trivial = string whose quoted form differs from the raw bytes (an escape was needed); distinct by content")
+	r.SetRule("all byte strings of length <=2, all length-3 strings over a 28-byte hostile alphabet (controls, quotes, backslash, separators, digits, UTF-8 lead/continuation bytes), seeded random strings (length<=40, biased to that alphabet and to backslash-escape look-alikes); every quoted form is held while the next string is quoted and must stay unchanged (fields of a record are quoted first and joined afterwards); non-trivial = string whose quoted form differs from the raw bytes (an escape was needed); distinct by content")
 	r.Assume("quoting is exercised through quote.Bquote/Bunquote and through Codec.ConvertLn of a TXT line with both separators")
+	// quoted forms are held while later strings are quoted (a record's fields are quoted one after the other and joined afterwards):
+	// the held form must stay what it was and must still read back as its string, alone and inside a line assembled later
+	var heldQ, heldCopy, heldS []byte
 	check := func(s []byte) {
 		r.Eval(1)
 		q := quote.Bquote(append([]byte{}, s...))
+		if heldQ != nil {
+			if !bytes.Equal(heldQ, heldCopy) {
+				r.Count("held_forms_changed", 1)
+				r.Violation("", fmt.Sprintf("the quoted form %q of %q changed to %q after quoting %q", heldCopy, heldS, heldQ, s), map[string]interface{}{"bytes": heldS, "then": []byte(s)})
+			} else if r.Counter("held_forms_checked")%16 == 0 {
+				line := []byte("'t.example.com," + string(heldQ) + ",300")
+				if recs, err := new(dnsdata.Codec).ConvertLn(line); err != nil || len(recs) != 1 {
+					r.Violation("", fmt.Sprintf("line %q assembled from a held quoted form rejected: %v", line, err), map[string]interface{}{"bytes": heldS, "then": []byte(s)})
+				}
+			}
+			r.Count("held_forms_checked", 1)
+		}
+		heldQ, heldCopy, heldS = q, append([]byte{}, q...), append([]byte{}, s...)
 		if !bytes.Equal(q, s) {
 			r.Nontrivial(string(s))
 			r.Count("needed_escape", 1)
@@ -146,6 +162,7 @@ func runC17(r *report.Run) {
 func replayC17(r *report.Run, c json.RawMessage) {
 	var in struct {
 		Bytes []byte `json:"bytes"`
+		Then  []byte `json:"then"`
 	}
 	if err := json.Unmarshal(c, &in); err != nil {
 		r.Inconclusive("bad replay file: " + err.Error())
@@ -154,5 +171,15 @@ func replayC17(r *report.Run, c json.RawMessage) {
 	if msg := c17One(in.Bytes); msg != "" {
 		fmt.Println(msg)
 		r.Violation("", msg, in)
+	}
+	if in.Then != nil {
+		q := quote.Bquote(append([]byte{}, in.Bytes...))
+		c := append([]byte{}, q...)
+		quote.Bquote(append([]byte{}, in.Then...))
+		if !bytes.Equal(q, c) {
+			msg := fmt.Sprintf("the quoted form %q changed to %q after quoting %q", c, q, in.Then)
+			fmt.Println(msg)
+			r.Violation("", msg, in)
+		}
 	}
 }
